@@ -356,6 +356,87 @@ def latch_sites(db, rep, prog):
 
 
 
+def databytes_setup_sites(db, rep):
+    """the size limit after start-up: for every source (control file, $DATABYTES, both) and every value including the
+    largest one, databytes + 1 does not wrap to 0 (a countdown armed with 0 is "unlimited", and the final test
+    databytes && !bytestooverflow then refuses every message AFTER it was queued)"""
+    out = {}
+    for pname, unit, fname, stop in (('qmail-qmtpd', 'qmail-qmtpd.c', 'main', 'stralloc_copys'), ('qmail-smtpd', 'qmail-smtpd.c', 'setup', None)):
+        prog = db.program(pname)
+        fn = prog.fn(fname, unit)
+
+        class DB_(QHooks):
+            def __init__(self):
+                self.finals = []
+
+            def tracked_global(self, path):
+                return path.startswith('$') or path == 'G:databytes'
+
+            def precise_arith(self, path):
+                return True
+
+            def prim_control_readint(self, E, x, args):
+                v = args[0]
+                v = next(iter(v)) if v is not TOP and len(v) == 1 else None
+                lit = x.args[1].string or ''
+                if 'databytes' not in lit or not (isinstance(v, tuple) and v[0] == '&'):
+                    return [Outcome(ret=fs(0)), Outcome(ret=fs(1), havoc=self._arg_roots(E, x, args))]
+                return [Outcome(ret=fs(0), sets={'$file': fs('absent')})] + [Outcome(ret=fs(1), sets={v[1]: fs(val), '$file': fs(val)}) for val in (0, 5, 0xFFFFFFFE, 0xFFFFFFFF)]
+
+            def prim_env_get(self, E, x, args):
+                if x.args[0].string == 'DATABYTES':
+                    return [Outcome(ret=fs(0), sets={'$env': fs('unset')}), Outcome(ret=fs(('&', 'ENVDB[0]')), sets={'$env': fs('set')})]
+                return [Outcome(ret=fs(0)), Outcome(ret=fs(('&', 'ENVX[0]')))]
+
+            def prim_scan_ulong(self, E, x, args):
+                v = args[1]
+                v = next(iter(v)) if v is not TOP and len(v) == 1 else None
+                src = args[0]
+                if not (isinstance(v, tuple) and v[0] == '&') or src != fs(('&', 'ENVDB[0]')):
+                    return [Outcome(ret=fs(0)), Outcome(ret=fs(3), havoc=self._arg_roots(E, x, args))]
+                return [Outcome(ret=fs(3), sets={v[1]: fs(val), '$envval': fs(val)}) for val in (0, 7, 0xFFFFFFFE, 0xFFFFFFFF, 0x1FFFFFFFF)]
+
+            def _ok0(self, E, x, args):
+                return [Outcome(ret=fs(0))]
+
+            prim_chdir = prim_control_init = prim_rcpthosts_init = prim_control_readfile = _ok0
+
+            def prim_control_rldef(self, E, x, args):
+                return [Outcome(ret=fs(1))]
+
+            def _n(self, E, x, args):
+                return [Outcome(ret=TOP)]
+
+            prim_sig_pipeignore = prim_sig_alarmcatch = prim_alarm = prim_str_len = prim_strlen = prim_constmap_init = prim_ipme_init = prim_dohelo = _n
+
+            def fin(self, E):
+                self.finals.append((g1(E, '$file'), g1(E, '$env'), g1(E, '$envval'), g1(E, 'G:databytes'), E.trace.list()))
+
+            def on_call(self, E, x, args):
+                if stop and x.callee == stop:
+                    self.fin(E)
+                    return 'noreturn'
+                return super().on_call(E, x, args)
+
+            def on_return(self, E, f_, val):
+                if f_.name == fname:
+                    self.fin(E)
+        H = DB_()
+        e = Engine(db, prog, H, max_states=400000)
+        e.run(fn, {'G:databytes': fs(0)})      # its initialiser
+        rep.count_states(e.states, e.transitions)
+        rel = [r_ for r_ in H.finals if r_[0] is not None]
+        if len(rel) < 10:
+            raise AnalysisBroken('%s: databytes set-up not explored (%d ends)' % (pname, len(rel)))
+        bad = None
+        for fv, ev, evv, dbv, tr in rel:
+            if not isinstance(dbv, int) or ((dbv + 1) & 0xFFFFFFFF) == 0:
+                bad = bad or ('control/databytes %s, $DATABYTES %s%s: the limit in force is %s, and limit + 1 wraps to 0' % (fv, ev, ' = %s' % evv if ev == 'set' else '', dbv), tr)
+        out['%s:size-limit+1-never-wraps-to-0' % pname] = (bad is None, '%s:%s' % (unit, fname), bad[0] if bad else '%d (file, environment) combinations' % len(rel), bad[1] if bad else [])
+    return out
+
+
+
 def run(ctx):
     db, rep = ctx.db, ctx.report
     prog = db.program('qmail-smtpd')
@@ -617,6 +698,8 @@ def run(ctx):
     r4.check(bool(puts) and all(counted_put(f, c) for f, c in puts), 'smtpd:body-bytes-are-counted-before-they-are-queued', 'qmail-smtpd.c:blast/put',
              'a body byte reaches qmail_put without the countdown if (bytestooverflow) if (!--bytestooverflow) qmail_fail before it')
     for inst, v in sorted(smtpd_size_sites(db, rep).items()):
+        r4.check(v[0], inst, v[1], v[2], v[3])
+    for inst, v in sorted(databytes_setup_sites(db, rep).items()):
         r4.check(v[0], inst, v[1], v[2], v[3])
 
     # qmtpd
